@@ -29,8 +29,10 @@ func cmdSeq(args []string) int {
 	maxStates := fs.Int("maxstates", 6, "rnd: max user states")
 	vetoP := fs.Float64("vetop", 0.5, "probability a call carries vetoes")
 	nestP := fs.Float64("nestp", 0.0, "probability a call carries handler-issued mutations")
+	backoffP := fs.Float64("backoffp", 0.0, "probability a history contains a stretch of machine backoff")
 	fs.Parse(args)
 	gen.NestP = *nestP
+	gen.BackoffP = *backoffP
 
 	cases := make([]*gen.Case, 0, *n)
 	r := rand.New(rand.NewSource(*seed))
